@@ -26,14 +26,17 @@ type WriteFault struct {
 // Conn is a simulated TCP connection. End A is the accepting (server) side, end B the
 // dialling (client) side.
 type Conn struct {
-	w      *World
-	ID     int
-	mu     sync.Mutex
-	c2s    pipe
-	s2c    pipe
-	A, B   *End
-	WFault []WriteFault
-	nWrite int
+	// EOFWithData: a read that returns the last bytes of a closed stream returns io.EOF
+	// with them instead of on the next call
+	EOFWithData bool
+	w           *World
+	ID          int
+	mu          sync.Mutex
+	c2s         pipe
+	s2c         pipe
+	A, B        *End
+	WFault      []WriteFault
+	nWrite      int
 	// bookkeeping visible to oracles
 	Accepted bool
 }
@@ -119,7 +122,14 @@ func (e *End) read(p []byte) (int, error) {
 			}
 			n := copy(p, e.rd.readable)
 			e.rd.readable = e.rd.readable[n:]
+			last := c.EOFWithData && e.rd.fin && len(e.rd.readable) == 0 && len(e.rd.inflight) == 0
 			c.mu.Unlock()
+			if last {
+				// legal for an io.Reader (and what TLS and other layered transports do): the
+				// last bytes of the stream arrive together with the end of the stream
+				c.w.Fault("eof-with-last-bytes")
+				return n, io.EOF
+			}
 			return n, nil
 		}
 		if e.rd.fin && len(e.rd.inflight) == 0 {
